@@ -324,6 +324,8 @@ func main() {
 		os.Exit(cmdCheck(os.Args[2:]))
 	case "replay":
 		os.Exit(cmdReplay(os.Args[2:]))
+	case "simulate":
+		os.Exit(cmdSimulate(os.Args[2:]))
 	case "list":
 		cf, err := loadChecks()
 		if err != nil {
@@ -734,8 +736,18 @@ func sanitize(s string) string {
 func (c *checker) matchKnown(key string) *knownFinding {
 	for i := range c.known {
 		k := &c.known[i]
-		if k.Property == c.id && k.Status != "fixed" && k.Key == key {
+		if k.Property != c.id || k.Status == "fixed" {
+			continue
+		}
+		if k.Key == key {
 			return k
+		}
+		// "*/harness/label": the same finding in whichever unit (machine,
+		// bounds) runs that harness
+		if strings.HasPrefix(k.Key, "*/") {
+			if i := strings.Index(key, "/"); i >= 0 && key[i:] == k.Key[1:] {
+				return k
+			}
 		}
 	}
 	return nil
@@ -912,6 +924,9 @@ func cmdReplay(args []string) int {
 			fmt.Fprintln(os.Stderr, err)
 			return 2
 		}
+		if os.Getenv("VERIF_REPLAY_RAW") != "" {
+			fmt.Println(out.raw)
+		}
 		fmt.Printf("outcome: %s\n", out.outcome)
 		for _, e := range out.events {
 			fmt.Println("event:", e)
@@ -938,4 +953,79 @@ func flagSet(fs *flag.FlagSet, name string) bool {
 		}
 	})
 	return found
+}
+
+// cmdSimulate runs a replay vector in the ENGINE (concrete mode) and prints the
+// events, for comparison with `replay` (the native run). Development aid.
+func cmdSimulate(args []string) int {
+	if len(args) < 2 {
+		fmt.Fprintln(os.Stderr, "usage: gosymex simulate <ID> <replay.json>")
+		return 64
+	}
+	id := args[0]
+	data, err := os.ReadFile(args[1])
+	if err != nil {
+		fmt.Fprintln(os.Stderr, err)
+		return 2
+	}
+	var rf struct {
+		Harness string            `json:"harness"`
+		Values  map[string]string `json:"values"`
+		Params  map[string]int    `json:"params"`
+	}
+	if err := json.Unmarshal(data, &rf); err != nil {
+		fmt.Fprintln(os.Stderr, err)
+		return 2
+	}
+	cf, err := loadChecks()
+	if err != nil {
+		fmt.Fprintln(os.Stderr, err)
+		return 2
+	}
+	for ui := range cf.Properties[id].Units {
+		u := &cf.Properties[id].Units[ui]
+		if !contains(u.Entries, rf.Harness) && !contains(u.Thorough.Entries, rf.Harness) {
+			continue
+		}
+		rc := &runConfig{solver: "z3", timeoutMs: 20000, unwind: 2000, maxSteps: 50000000, verbose: len(args) > 2, inlineGo: u.InlineGo, deferGo: u.DeferGo,
+			stubs: u.Stubs, params: rf.Params, repoModule: repoModule}
+		if rc.stubs == nil {
+			rc.stubs = map[string]string{}
+		}
+		pkgName, err := pkgNameOf(u.Pkg)
+		if err != nil {
+			fmt.Fprintln(os.Stderr, err)
+			return 2
+		}
+		entries := append(append([]string{}, u.Entries...), u.Thorough.Entries...)
+		ov, _, err := overlayFor(u, pkgName, entries)
+		if err != nil {
+			fmt.Fprintln(os.Stderr, err)
+			return 2
+		}
+		lp, err := loadProgram(u, ov, rc)
+		if err != nil {
+			fmt.Fprintln(os.Stderr, err)
+			return 2
+		}
+		ex := newExplorer(rc, rf.Harness)
+		sol, err := startPrimary(rc)
+		if err != nil {
+			fmt.Fprintln(os.Stderr, err)
+			return 2
+		}
+		defer sol.close()
+		i := newInterpreter(lp, ex, sol)
+		i.vector = rf.Values
+		i.simulate = true
+		i.path = &pathState{nondetCnt: map[string]int{}, varSet: map[string]*Expr{}, decided: map[exprKey]bool{}}
+		status, detail := i.runHarness(rf.Harness)
+		fmt.Printf("outcome: %s %s\n", status, detail)
+		for _, e := range i.concreteEvents {
+			fmt.Println("event:", e)
+		}
+		return 0
+	}
+	fmt.Fprintln(os.Stderr, "harness not found in configuration:", rf.Harness)
+	return 2
 }
